@@ -79,7 +79,7 @@ static void on_alarm(int s) { (void)s; alarmed = 1; }
 
 #define MAXF 8
 int main(int argc, char **argv) {
-    const char *outp = NULL; int whole = 0; long failk[MAXF], faile[MAXF]; int nfail = 0; long shortk = -1, shortn = 0, killk = -1, retzero = -1, fak = -1, fae = 0; int kill_at_exit = 0;
+    const char *outp = NULL; int whole = 0; long failk[MAXF], faile[MAXF]; int nfail = 0; long shortk = -1, shortn = 0, killk = -1, retzero = -1, fak = -1, fae = 0, expectnr = -1; int skipalloc = 0, diverged = 0; int kill_at_exit = 0;
     long calltimeout = 3000, totaltimeout = 20000, maxcalls = 20000, maxrec = 3000; int ai = 1; int runaway = 0;
     for (; ai < argc; ai++) {
         if (!strcmp(argv[ai], "--")) { ai++; break; }
@@ -93,6 +93,8 @@ int main(int argc, char **argv) {
         else if (!strcmp(argv[ai], "--calltimeout")) calltimeout = atol(argv[++ai]);
         else if (!strcmp(argv[ai], "--totaltimeout")) totaltimeout = atol(argv[++ai]);
         else if (!strcmp(argv[ai], "--maxcalls")) maxcalls = atol(argv[++ai]);
+        else if (!strcmp(argv[ai], "--skipalloc")) skipalloc = 1;
+        else if (!strcmp(argv[ai], "--expectnr")) expectnr = atol(argv[++ai]);
         else { fprintf(stderr, "sysx: bad option %s\n", argv[ai]); return 2; }
     }
     if (ai >= argc || !outp) { fprintf(stderr, "usage: sysx -o out [opts] -- prog args\n"); return 2; }
@@ -131,6 +133,8 @@ int main(int argc, char **argv) {
             in_sys = 1; cur_nr = (long)regs.orig_rax; counted = 0; pend = 0;
             if (cur_nr == SYS_write && (int)regs.rdi == -1) { char m[16] = ""; peek(pid, regs.rsi, m, 11); if (!strncmp(m, "VERIF:BEGIN", 11)) { in_window = 1; winno++; continue; } if (!strncmp(m, "VERIF:END", 9)) { in_window = whole; continue; } }
             if (!in_window) continue;
+            /* allocator / runtime calls vary from run to run (sanitizer heap growth): never numbered, never faulted */
+            if (skipalloc && (cur_nr == SYS_mmap || cur_nr == SYS_munmap || cur_nr == SYS_brk || cur_nr == SYS_mprotect || cur_nr == SYS_madvise || cur_nr == SYS_futex || cur_nr == SYS_mremap)) continue;
             idx++; counted = 1;
             if (idx >= maxcalls) { runaway = 1; kill(pid, SIGKILL); waitpid(pid, &st, 0); killed_by_us = 1; counted = 0; break; }
             if (idx >= maxrec) { counted = 0; continue; }   /* numbered but no longer recorded */
@@ -146,6 +150,7 @@ int main(int argc, char **argv) {
                 long cnt = (long)regs.rdx; if (cnt > 0 && cnt <= 64) { struct iovec iv[64]; peek(pid, regs.rsi, iv, cnt * sizeof iv[0]); size_t tot = 0; for (long q = 0; q < cnt; q++) tot += iv[q].iov_len;
                     if (tot <= (4u << 20)) { unsigned char *b = malloc(tot + 1); size_t o = 0; for (long q = 0; q < cnt; q++) { ssize_t g = peek(pid, (unsigned long)iv[q].iov_base, b + o, iv[q].iov_len); if (g > 0) o += g; }
                         fprintf(out, ",\"buf_len\":%zu,\"buf_fnv\":\"%016llx\",\"iovcnt\":%ld", tot, (unsigned long long)fnv(b, o), cnt); if (o && b[o - 1] == '\n') fprintf(out, ",\"buf_ends_nl\":1"); free(b); } } }
+            if (expectnr >= 0 && ((nfail && idx == failk[0]) || idx == retzero || idx == shortk || idx == fak) && cur_nr != expectnr) { diverged = 1; fprintf(out, ",\"diverged_expected_nr\":%ld}", expectnr); kill(pid, SIGKILL); waitpid(pid, &st, 0); killed_by_us = 1; counted = 0; break; }
             for (int f = 0; f < nfail; f++) if (idx == failk[f]) { regs.orig_rax = (unsigned long long)-1; ptrace(PTRACE_SETREGS, pid, 0, &regs); pend = 1; pend_ret = -faile[f]; fprintf(out, ",\"injected\":%ld", -faile[f]); }
             if (idx == retzero) { regs.orig_rax = (unsigned long long)-1; ptrace(PTRACE_SETREGS, pid, 0, &regs); pend = 1; pend_ret = 0; fprintf(out, ",\"injected\":0"); }
             if (idx == shortk) { regs.rdx = (unsigned long long)shortn; ptrace(PTRACE_SETREGS, pid, 0, &regs); fprintf(out, ",\"shortened\":%ld", shortn); }
@@ -163,7 +168,7 @@ int main(int argc, char **argv) {
     if (counted && in_sys) fprintf(out, ",\"ret\":null}");
     fprintf(out, "\n],\"ncalls\":%ld,\"signals\":[", idx + 1);
     for (int i = 0; i < nsig; i++) fprintf(out, "%s%d", i ? "," : "", sigs[i]);
-    fprintf(out, "],\"exited\":%d,\"exit_code\":%d,\"term_sig\":%d,\"killed_by_sysx\":%d,\"blocked_call\":%ld,\"total_timeout\":%d,\"runaway\":%d}\n", exited, exit_code, term_sig, killed_by_us, blocked_idx, total_to, runaway);
+    fprintf(out, "],\"exited\":%d,\"exit_code\":%d,\"term_sig\":%d,\"killed_by_sysx\":%d,\"blocked_call\":%ld,\"total_timeout\":%d,\"runaway\":%d,\"diverged\":%d}\n", exited, exit_code, term_sig, killed_by_us, blocked_idx, total_to, runaway, diverged);
     fclose(out);
     return 0;
 }
